@@ -77,6 +77,11 @@ impl AuthenticationRequest {
         data: &[u8],
         parameter: impl Into<AuthenticationParameter>,
     ) -> Result<Self, TryFromSliceError> {
+        // challenge (32) || application (32) || key handle length (1) || key handle
+        if data.len() < 65 || data.len() - 65 < usize::from(data[64]) {
+            // too short: report it with this function's error type
+            return Err(<[u8; 32]>::try_from(&data[..0]).unwrap_err());
+        }
         let (challenge, data) = data.split_at(32);
         let (application, data) = data.split_at(32);
         let (handle_len, data) = data.split_at(1);
